@@ -59,6 +59,7 @@ OgreArrayPoolAllocator<DataType, ContainerType, POOL_SIZE> {
 
     #[inline(always)]
     fn alloc_ref(&self) -> Option<(&mut DataType, u32)> {
+        #[cfg(feature = "verif")] crate::verif::yield_point();
         if let Some(slot_id) = self.free_list.consume_movable() {
             let mutable_pool = unsafe { &mut *(self.pool.get() as *mut Box<[DataType; POOL_SIZE]>) };
             let slot_ref = unsafe { mutable_pool.get_unchecked_mut(slot_id as usize) };
@@ -102,9 +103,11 @@ OgreArrayPoolAllocator<DataType, ContainerType, POOL_SIZE> {
             unsafe {
                 let pool = &mut *(self.pool.get() as *mut Box<[DataType; POOL_SIZE]>);
                 let slot = pool.get_unchecked_mut(slot_id as usize);
+                #[cfg(feature = "verif")] crate::verif::yield_point();
                 ptr::drop_in_place(slot);
             }
         }
+        #[cfg(feature = "verif")] crate::verif::yield_point();
         self.free_list.publish_movable(slot_id);
     }
 
